@@ -8,6 +8,7 @@ package ctxiso
 
 import (
 	"bytes"
+	"encoding/json"
 	"fmt"
 	"runtime"
 	"sort"
@@ -111,7 +112,7 @@ func genHistoryReq(r *gen.Rand, tag string, custom bool) wreq {
 		q.Other = "name=" + tag + "cn; tag=" + tag + "ct; n=" + gen.Pick(r, []string{"5", "x", ""})
 	}
 	kind := ""
-	switch r.PickW(14, 12, 14, 10, 10, 6, 4, 5, 5, 4, 4, 6, 6) {
+	switch r.PickW(14, 12, 14, 10, 10, 6, 4, 5, 5, 4, 4, 6, 6, 10) {
 	case 0:
 		kind = "many-params"
 		var sb strings.Builder
@@ -190,6 +191,8 @@ func genHistoryReq(r *gen.Rand, tag string, custom bool) wreq {
 			q.Method = "OPTIONS"
 		}
 		q.Target = "/locals/" + tag
+	case 13:
+		return genHalfBind(r, tag, q, class)
 	case 11:
 		// malformed request line / header: the server error path acquires a context too
 		kind = "malformed"
@@ -208,6 +211,34 @@ func genHistoryReq(r *gen.Rand, tag string, custom bool) wreq {
 		q.Target = "/locals/" + tag
 		q.Hdr = append(q.Hdr, [2]string{"X-Big", r.StringFrom(gen.AlphaNum, r.Range(4200, 9000))})
 		return wreq{Kind: kind, Raw: q.raw(), Kills: true, Cookie: class}
+	}
+	return wreq{Kind: kind, Raw: q.raw(), Cookie: class}
+}
+
+// genHalfBind: a request whose query (or urlencoded form) carries ordinary, id-tagged arguments
+// first and then a key the binder rejects ("unmatched brackets"), so that binding is abandoned
+// after part of the arguments were collected. Sent to the handlers that bind.
+func genHalfBind(r *gen.Rand, tag string, q *reqSpec, class string) wreq {
+	badKey := gen.Pick(r, []string{"filter%5Bcolor", "f%5B%5Bx%5D", "list%5D", "a%5Bb%5D%5D", "filter[color"})
+	good := "name=" + tag + "hbn&tag=" + tag + "hbt&card=" + tag + "secret&l=" + tag + "l1&n=7"
+	half := good + "&" + badKey + "=red&after=" + tag + "after"
+	kind := "half-bind-query"
+	switch r.Intn(4) {
+	case 0, 1:
+		q.Method = gen.Pick(r, []string{"GET", "POST"})
+		q.Target = "/bind?" + half
+		if q.Method == "POST" {
+			q.Body = []byte{}
+		}
+	case 2:
+		// Redirect().WithInput() binds the query of a GET request
+		q.Target = "/redir/" + tag + "?n=1&lvl=64&input=1&" + half
+	default:
+		kind = "half-bind-form"
+		q.Method = "POST"
+		q.Target = gen.Pick(r, []string{"/bind?a=1", "/redir/" + tag + "?n=1&lvl=64&input=1"})
+		q.CType = "application/x-www-form-urlencoded"
+		q.Body = []byte(half)
 	}
 	return wreq{Kind: kind, Raw: q.raw(), Cookie: class}
 }
@@ -539,6 +570,8 @@ func judgeIso(e *ev.Env, c *ev.Case, ic isoCase) {
 		vecDiff = true
 		sig := "leak|" + k
 		switch k {
+		case "bind":
+			sig = "leak|bind|" + bindDiffSources(fs.vec[k], hs.vec[k])
 		case "flash-messages", "old-inputs":
 			if flashDone {
 				continue
@@ -595,6 +628,32 @@ func judgeIso(e *ev.Env, c *ev.Case, ic isoCase) {
 	}
 }
 
+// bindDiffSources names the binding sources (query, header, cookie, form, body) whose result
+// differs between the two "bind" components.
+func bindDiffSources(a, b string) string {
+	var ma, mb map[string]json.RawMessage
+	if json.Unmarshal([]byte(a), &ma) != nil || json.Unmarshal([]byte(b), &mb) != nil {
+		return "unparsed"
+	}
+	set := map[string]struct{}{}
+	for k, v := range ma {
+		if !bytes.Equal(v, mb[k]) {
+			set[strings.SplitN(k, ".", 2)[0]] = struct{}{}
+		}
+	}
+	for k := range mb {
+		if _, ok := ma[k]; !ok {
+			set[strings.SplitN(k, ".", 2)[0]] = struct{}{}
+		}
+	}
+	var out []string
+	for k := range set {
+		out = append(out, k)
+	}
+	sort.Strings(out)
+	return strings.Join(out, "+")
+}
+
 func hdrMap(r *lresp) map[string][]string {
 	m := map[string][]string{}
 	for _, h := range r.Hdr {
@@ -636,6 +695,27 @@ func runIsolation(e *ev.Env) {
 			}
 		}
 		ic.Probe = genProbe(r.Split(), gen.Pick(r, []string{ckPartial, ckPartial, ckTruncated, ckGarbage, ckValid, ckNone}))
+		judgeIso(e, c, ic)
+	})
+	// directed family: the last binding request of the history abandons its bind half-way
+	e.Cases("halfbind", e.N(300, 8000), func(c *ev.Case) {
+		r := c.R
+		ic := isoCase{Cfg: isoCfg{Custom: r.Chance(1, 3), PassLocals: r.Bool(), Immutable: r.Bool()}}
+		n := r.Range(0, 4)
+		for i := 0; i < n; i++ {
+			ic.History = append(ic.History, genHistoryReq(r.Split(), "h"+strconv.Itoa(i)+"x", ic.Cfg.Custom))
+		}
+		for i := r.Range(1, 2); i > 0; i-- {
+			tag := "h" + strconv.Itoa(len(ic.History)) + "x"
+			ic.History = append(ic.History, genHalfBind(r.Split(), tag, &reqSpec{Host: gen.Pick(r, hosts)}, ckNone))
+		}
+		// a few requests that do not bind may follow
+		for i := r.Intn(3); i > 0; i-- {
+			tag := "h" + strconv.Itoa(len(ic.History)) + "x"
+			q := &reqSpec{Target: gen.Pick(r, []string{"/locals/" + tag, "/base", "/nothing/" + tag, "/err/500", "/getonly"})}
+			ic.History = append(ic.History, wreq{Kind: "no-bind", Raw: q.raw(), Cookie: ckNone})
+		}
+		ic.Probe = genProbe(r.Split(), "")
 		judgeIso(e, c, ic)
 	})
 	if e.Only == "" {
